@@ -392,8 +392,14 @@ func (w *WalletManager) findEligibleUtxos(amount massutil.Amount, witnessAddr []
 	firstAddr := ""
 	if len(selections) > 0 {
 		am := w.ksmgr.CurrentKeystore()
+		if am == nil {
+			return nil, "", zeroAmount, false, ErrNoWalletInUse
+		}
 		for _, addr := range witnessAddr {
-			ma, _ := am.Address(addr)
+			ma, err := am.Address(addr)
+			if err != nil {
+				return nil, "", zeroAmount, false, err
+			}
 			if bytes.Equal(ma.ScriptAddress(), selections[0].ScriptHash) {
 				firstAddr = addr
 				break
@@ -616,6 +622,9 @@ func (w *WalletManager) signWitnessTx(password []byte, tx *wire.MsgTx, hashType 
 		addrStr := address.EncodeAddress()
 
 		acctM := w.ksmgr.CurrentKeystore()
+		if acctM == nil {
+			return nil, ErrNoWalletInUse
+		}
 		mAddr, err := acctM.Address(addrStr)
 		if err != nil {
 			logging.CPrint(logging.ERROR, "ScriptClosure error", logging.LogFormat{"err": err})
